@@ -1077,12 +1077,17 @@ fn eq(lhs: &Value, rhs: &Value) -> StdResult<bool, (String, String, String)> {
                 return Ok(true);
             }
 
-            if lock_deref!(xs).len() != lock_deref!(ys).len() {
+            // The items are copied out so that neither list stays locked
+            // while its items are compared (they may contain these lists).
+            let xs = lock_deref!(xs).clone();
+            let ys = lock_deref!(ys).clone();
+
+            if xs.len() != ys.len() {
                 return Ok(false);
             }
 
-            for (i, x) in lock_deref!(xs).iter().enumerate() {
-                let y = &lock_deref!(ys)[i];
+            for (i, x) in xs.iter().enumerate() {
+                let y = &ys[i];
 
                 let equal =
                     match eq(&x.v, &y.v) {
@@ -1107,12 +1112,14 @@ fn eq(lhs: &Value, rhs: &Value) -> StdResult<bool, (String, String, String)> {
                 return Ok(true);
             }
 
-            if lock_deref!(xs).len() != lock_deref!(ys).len() {
+            let xs = lock_deref!(xs).clone();
+            let ys = lock_deref!(ys).clone();
+
+            if xs.len() != ys.len() {
                 return Ok(false);
             }
 
-            for (k, x) in &lock_deref!(xs) {
-                let ys = &lock_deref!(ys);
+            for (k, x) in &xs {
                 let y =
                     if let Some(y) = ys.get(k) {
                         y
